@@ -302,10 +302,10 @@ struct SymRunner : public CommandRunner {
 };
 
 struct RecStatus : public Status {
-  int added, removed, started, finished, failed_n; bool build_started, build_finished; std::vector<std::string> msgs;
+  int added, removed, started, finished, failed_n; bool build_started, build_finished; std::vector<std::string> msgs; std::vector<int> started_edges;
   RecStatus() : added(0), removed(0), started(0), finished(0), failed_n(0), build_started(false), build_finished(false) {}
   void EdgeAddedToPlan(const Edge*) override { added++; } void EdgeRemovedFromPlan(const Edge*) override { removed++; }
-  void BuildEdgeStarted(const Edge*, int64_t) override { started++; }
+  void BuildEdgeStarted(const Edge* e, int64_t) override { started++; started_edges.push_back((int)e->id_); }
   void BuildEdgeFinished(Edge*, int64_t, int64_t, ExitStatus st, const std::string&) override { finished++; if (st != ExitSuccess) failed_n++; }
   void BuildStarted() override { build_started = true; } void BuildFinished() override { build_finished = true; } void NewLine() override {}
   void SetExplanations(Explanations*) override {}
@@ -319,7 +319,7 @@ struct NoDeadPaths : public BuildLogUser { bool IsPathDead(StringPiece) const ov
 struct InvocationOpts { RunnerOpts run; int failures_allowed; std::vector<std::string> targets; bool use_logs; bool dry_run; int token_pool; InvocationOpts() : failures_allowed(1), use_logs(true), dry_run(false), token_pool(-1) {} };
 struct InvocationResult {
   bool parsed, loaded, added; int rc; bool up_to_date; std::string err;
-  std::vector<int> started, finished_ok, failed, exit_codes; std::vector<std::string> events; int max_running; bool stuck; bool interrupted; int tokens_outstanding; int status_started, status_finished, status_added, status_removed;
+  std::vector<int> started, finished_ok, failed, exit_codes; std::vector<std::string> events; int max_running; bool stuck; bool interrupted; int tokens_outstanding; int status_started, status_finished, status_added, status_removed; std::vector<int> status_started_edges;
   InvocationResult() : parsed(false), loaded(false), added(false), rc(-1), up_to_date(false), max_running(0), stuck(false), interrupted(false), tokens_outstanding(0), status_started(0), status_finished(0), status_added(0), status_removed(0) {}
 };
 static bool has_id(const std::vector<int>& v, int x) { for (size_t i = 0; i < v.size(); i++) if (v[i] == x) return true; return false; }
@@ -339,9 +339,9 @@ static InvocationResult invoke(const InvocationOpts& o) {
   if (o.use_logs) {
     log = new BuildLog; deps = new DepsLog;
     bool ok = log->Load(".ninja_log", &err) != LOAD_ERROR; err.clear();
-    ok = ok && log->OpenForWrite(".ninja_log", user, &err);
+    if (!o.dry_run) ok = ok && log->OpenForWrite(".ninja_log", user, &err);
     ok = ok && deps->Load(".ninja_deps", state, &err) != LOAD_ERROR; err.clear();
-    ok = ok && deps->OpenForWrite(".ninja_deps", &err);
+    if (!o.dry_run) ok = ok && deps->OpenForWrite(".ninja_deps", &err);
     res.loaded = ok;
     VERIF_ASSERT(ok, "C07/C08/C09: both logs load and open at the start of an invocation");
     if (!ok) return res;
@@ -372,8 +372,8 @@ static InvocationResult invoke(const InvocationOpts& o) {
     if (o.dry_run) delete runner;
   }
   if (tokens) res.tokens_outstanding = tokens->outstanding();
-  res.status_started = status->started; res.status_finished = status->finished; res.status_added = status->added; res.status_removed = status->removed;
-  if (log) { log->Close(); deps->Close(); }
+  res.status_started_edges = status->started_edges; res.status_started = status->started; res.status_finished = status->finished; res.status_added = status->added; res.status_removed = status->removed;
+  if (log && !o.dry_run) { log->Close(); deps->Close(); }
   return res;
 }
 
